@@ -417,6 +417,28 @@ def main(tier):
         elif outs != ref_out[1]:
             dk = [k for k in outs if outs[k] != ref_out[1].get(k)]
             chk.violation('build-variant|%s|different-output' % cfg, {'kind': 'config', 'variant': cfg, 'cells': [str(k) for k in dk[:5]]}, 'build variant %s writes different files than %s for %s' % (cfg, ref_out[0], dk[:3]))
+    # (viii) pretty printing on the control-flow corpus: the bodies of the C03 enumerations translated with -p must behave like the reference
+    # too (C03 itself runs the compact format)
+    import enum_cf, c03
+    pjobs = []
+    S_, p_, l_, r_ = enum_cf.sigma_full()
+    vals_ = [0, 1, 2, 3, 0xffffffff]
+    in_ii_ = [(a, b) for a in vals_ for b in vals_]
+    for b in c03.batches_of('pretty:cf-full', S_, p_, [(1, 'i'), (1, 'I')], r_, 3 if tier == 'quick' else 4, in_ii_, [('env', 'mark', 'i', 'i')]):
+        pjobs.append(('pretty:cf-full', b))
+    Sm_, pm_, lm_, rm_ = enum_cf.sigma_mid()
+    for cname, pre_, suf_ in enum_cf.contexts():
+        for b in c03.batches_of('pretty:ctx', Sm_, pm_, [], rm_, 3 if tier == 'quick' else 4, in_ii_, [('env', 'mark', 'i', 'i')], False, (pre_, suf_)):
+            pjobs.append(('pretty:ctx:' + cname, b))
+    nbodies = 0
+    for (label, b), res in zip(pjobs, pmap(lambda j: run_batch(j[1], w2c2=w2c2, w2c2_args=('-p',)), pjobs)):
+        before = chk.cov['distinct_nontrivial']
+        if report(chk, b, res, label + '|-p', extra={'w2c2_args': ['-p']}):
+            nbodies += res['funcs']; runs += 1
+        else:
+            chk.cov['exhaustive'] = False
+        chk.cov['distinct_nontrivial'] = before
+    chk.cov['pretty_printed_control_flow_bodies'] = nbodies
     hruns = hash_boundary_part(chk, w2c2)
     runs += hruns
     chk.cov['hash_boundary_runs'] = hruns
@@ -438,7 +460,7 @@ def main(tier):
     chk.cov['sched'] = sched
     chk.cov['rule'] = ('E-config: 3 base modules x {-p}x{-m}x{-g} x {-f 0..#f+1} x {-t 1,2,3,64} x {-d arrays,gnu-ld} x {-r none,self,one-body-changed,locals-changed,disjoint}; '
                        'oracles i-iv, vi per cell; (v) linked variants (gnu-ld via ld -r -b binary) run in lockstep with the reference interpreter; (vii) translator built in the '
-                       'HAS_PTHREAD x HAS_GETOPT x HAS_LIBGEN x HAS_STRDUP configurations must write identical files; static classification also on a module with one function per code-entry size 8..300 bytes against references that differ only in the last / first constant; E-sched: the real producer/worker protocol under the controlled scheduler - every interleaving of its mutex/condition operations up to the preemption bound, see the sched block. '
+                       'HAS_PTHREAD x HAS_GETOPT x HAS_LIBGEN x HAS_STRDUP configurations must write identical files; (viii) all valid control-flow bodies of the C03 enumerations (N = 3, thorough 4, incl. the contexts) translated with -p in lockstep with the reference; static classification also on a module with one function per code-entry size 8..300 bytes against references that differ only in the last / first constant; E-sched: the real producer/worker protocol under the controlled scheduler - every interleaving of its mutex/condition operations up to the preemption bound, see the sched block. '
                        'states = option cells + linked variants + build variants (+ distinct end states of schedules)')
     chk.sample({'cell': 'B1 -p -m -f 2 -t 3 -d gnu-ld ref=one-body-changed', 'oracles': ['exactly-once', 'text = -t 1 -f 0 run', 'static => identical body in reference', 'each file compiles', 'two runs identical']})
     chk.assumptions += ['#line directives from DWARF need libdwarf, which is not installed: -g is exercised with name sections only']
